@@ -37,6 +37,17 @@ func init() {
 		for _, e := range p.CG().Out[d[8:]] {
 			fmt.Printf("%s  -> %s (%s) %s\n", d[8:], e.To, e.Kind, e.Pos)
 		}
+	case d == "aliases":
+		for o, t := range objAlias {
+			fmt.Printf("%s@%s -> %s@%s\n", o.Name(), p.Pos(o.Pos()), t.Name(), p.Pos(t.Pos()))
+		}
+		for _, f := range p.NonTestFuncs() {
+			if hs := p.privateHelpers(f); len(hs) > 0 {
+				for _, h := range hs {
+					fmt.Printf("helper %s of %s\n", h.Key, f.Key)
+				}
+			}
+		}
 	case d == "funcs":
 		for _, f := range p.FuncSeq {
 			fmt.Println(f.Key)
